@@ -302,6 +302,12 @@ func c04CaseBody(c *core.Ctx, t *dyn.TypeOps, ch, k, s, e int, caseID string, fo
 	}
 	root := w.Adopt(b, "parent")
 	win := w.Slice(root, s, e, "window")
+	if ragged && (ch+k+s+e)%2 == 0 {
+		// the parent was appended to BEFORE the window was cut; the appends now
+		// go to the window
+		onRoot = false
+		c.Obs("windows_appended_to_after_the_parent_was_appended_to", 1)
+	}
 	if onRoot {
 		// the appends go to the buffer itself, not to a Slice view of it
 		win = root
